@@ -152,6 +152,91 @@ def g4_chars(node, byname, acc, stack=()):
     return acc
 
 
+def rule_language(node, L):
+    """All symbol strings (tuples of token / rule names) of length <= L denoted by a rule body."""
+    t = node[0]
+    if t == "ref":
+        return {(node[1],)} if L >= 1 else set()
+    if t == "alt":
+        out = set()
+        for a in node[1]:
+            out |= rule_language(a, L)
+        return out
+    if t == "seq":
+        cur = {()}
+        for x in node[1]:
+            nxt = set()
+            for pre in cur:
+                for suf in rule_language(x, L - len(pre)):
+                    nxt.add(pre + suf)
+            cur = nxt
+            if not cur:
+                break
+        return cur
+    if t == "opt":
+        return {()} | rule_language(node[1], L)
+    if t in ("star", "plus"):
+        base = {w for w in rule_language(node[1], L) if w}
+        out = set() if t == "plus" else {()}
+        cur = {()}
+        first = True
+        while cur:
+            nxt = set()
+            for pre in cur:
+                for w in base:
+                    if len(pre) + len(w) <= L:
+                        nxt.add(pre + w)
+            nxt -= out
+            out |= nxt
+            cur = nxt
+        if t == "plus":
+            out.discard(())
+        return out
+    raise g4ref.G4Unsupported("parser node %r" % (t,))
+
+
+def atn_rule_language(P, ri, L):
+    """The same, read off the shipped parser ATN for rule index ri (rule calls are symbols)."""
+    from antlr4.atn.Transition import Transition
+    from antlr4.Token import Token
+
+    atn = P.atn
+    start = atn.ruleToStartState[ri]
+    stop = atn.ruleToStopState[ri]
+    out = set()
+    seen = set()
+    st = [(start, ())]
+    while st:
+        state, w = st.pop()
+        if (state.stateNumber, w) in seen:
+            continue
+        seen.add((state.stateNumber, w))
+        if state is stop:
+            out.add(w)
+            continue
+        for t in state.transitions:
+            k = t.serializationType
+            if k in (Transition.EPSILON, Transition.PREDICATE, Transition.ACTION, Transition.PRECEDENCE):
+                st.append((t.target, w))
+            elif len(w) >= L:
+                continue
+            elif k == Transition.RULE:
+                st.append((t.followState, w + (P.ruleNames[t.target.ruleIndex],)))
+            elif k in (Transition.ATOM, Transition.RANGE, Transition.SET):
+                for iv in t.label.intervals:
+                    for tt in range(iv.start, iv.stop):
+                        st.append((t.target, w + ("EOF" if tt == Token.EOF else P.symbolicNames[tt],)))
+            elif k in (Transition.NOT_SET, Transition.WILDCARD):
+                ex = set()
+                if k == Transition.NOT_SET:
+                    for iv in t.label.intervals:
+                        ex |= set(range(iv.start, iv.stop))
+                for tt in range(1, atn.maxTokenType + 1):
+                    if tt not in ex:
+                        st.append((t.target, w + (P.symbolicNames[tt],)))
+    return out
+
+
 def structure_obligations(g):
     """Yield (name, ok, detail) for every structural comparison."""
     from antlr4.atn.Transition import Transition
@@ -262,6 +347,19 @@ def structure_obligations(g):
                 elif k in (Transition.NOT_SET, Transition.WILDCARD):
                     got.add("<wildcard/not-set>")
         yield ("rule-refs:parser rule %s" % name, want == got, "grammar %s vs ATN %s" % (sorted(want - got), sorted(got - want)))
+    # per parser rule: the bounded language over tokens and rule calls (exact, both inclusions); left-recursive
+    # rules are rewritten by ANTLR and are compared by execution only
+    BOUND = 6
+    for i, (name, _, body, _) in enumerate(g.parser_rules):
+        leftrec = any(a[1] and a[1][0][0] == "ref" and a[1][0][1] == name for a in body[1])
+        if leftrec:
+            continue
+        want = rule_language(body, BOUND)
+        got = atn_rule_language(P, i, BOUND)
+        only_g = sorted(want - got)[:2]
+        only_a = sorted(got - want)[:2]
+        yield ("rule-language:parser rule %s (all strings of <= %d symbols)" % (name, BOUND), want == got,
+               "%d vs %d strings; only in grammar %s; only in ATN %s" % (len(want), len(got), only_g, only_a))
     # per lexer rule: characters
     latn = L.atn
     byname = {r[0]: r[2] for r in g.lexer_rules}
@@ -741,6 +839,7 @@ def run(ctx):
     alpha = g.alphabet() + list("é中 \x00\x7f")
     classes = token_classes(g)
     ctx.extra["token_classes"] = len(classes)
+    seen_ctx = set()
     atn_der = Deriver(AtnGrammar(), ctx.rng("derive-atn"))
     i = 0
     while done < total:
@@ -763,7 +862,11 @@ def run(ctx):
             body_ = [t for t in types if t != "EOF"]
             spots = [(k_, cl) for k_, t in enumerate(body_) for cl in classes if t in cl]
             rng.shuffle(spots)
-            for (k_, cl) in (spots if ctx.tier == "thorough" else spots[:4]):
+            # contexts (two preceding token types, class) not substituted yet come first
+            fresh_ = [sp for sp in spots if (tuple(body_[max(0, sp[0] - 2) : sp[0]]), sp[1]) not in seen_ctx]
+            spots = fresh_ + [sp for sp in spots if sp not in fresh_]
+            for (k_, cl) in (spots if ctx.tier == "thorough" else spots[:6]):
+                seen_ctx.add((tuple(body_[max(0, k_ - 2) : k_]), cl))
                 for other in sorted(cl):
                     if other != body_[k_]:
                         compare(ctx, g, texts.render(body_[:k_] + [other] + body_[k_ + 1 :]), ["class-substitution"], aux)
